@@ -44,6 +44,7 @@ type sharedScenario struct {
 	SpecsS   []string     `json:"data_specs"`
 	ScriptsS [][]string   `json:"scripts_per_task"`
 	Flush    bool         `json:"pools_flushed_at_every_handover"`
+	Sched    []string     `json:"first_context_switches"`
 	Zone     string       `json:"zone"`
 	Clock    string       `json:"clock"`
 	Strategy string       `json:"strategy"`
@@ -345,6 +346,7 @@ func runShared(rc *RunCtx) {
 	}
 	sc.Switches, sc.Steps, sc.Trace = sched.switches, sched.steps, fmt.Sprintf("%016x", sched.trace.h)
 	sc.Flush = flushAtHandover
+	sc.Sched = sched.scheduleTrace()
 	for t := range sc.Scripts {
 		sc.SpecsS = append(sc.SpecsS, specString(sc.Specs[t]))
 		var ops []string
